@@ -1,6 +1,7 @@
 import AscaVerif.Model.Mods
 import AscaVerif.Model.Render
 import AscaVerif.Model.ParseWord
+import AscaVerif.Model.Alias
 import AscaVerif.Model.Interp.Apply
 /-! Line-protocol driver for the model (compiled `lean_exe`; imports the model only — core Lean). -/
 open Asca
@@ -294,6 +295,55 @@ def opApply (verbose : Bool) (ts : List String) : String :=
 structure DState where
   ord : Render.Table := Gen.cardinals
 
+/-! ## aliases: `rendera <n> {rom}* <word>` and `parsed <n> {<klen> cps.. <seg>}* <cps..>`
+    rom = input (`I <seg>` | `M <k> {<feat> <0/1>}*` | `B`) then output (`R <plus 0/1> <len> cps..` | `E`) -/
+def parseNats : Nat → List String → Option (List Nat × List String)
+  | 0, ts => some ([], ts)
+  | n + 1, t :: ts => do
+    let v ← t.toNat?
+    let (vs, rest) ← parseNats n ts
+    pure (v :: vs, rest)
+  | _, _ => none
+
+def parseFeatPairs : Nat → List String → Option (List (Nat × Bool) × List String)
+  | 0, ts => some ([], ts)
+  | n + 1, i :: p :: ts => do
+    let i ← i.toNat?
+    let (vs, rest) ← parseFeatPairs n ts
+    pure ((i, p == "1") :: vs, rest)
+  | _, _ => none
+
+def parseRom (ts : List String) : Option (Alias.Rom × List String) := do
+  let (inp, rest) ← (match ts with
+    | "I" :: r => (parseSeg r).map fun (s, r') => (Alias.RIn.ipa s, r')
+    | "M" :: k :: r => do let k ← k.toNat?; let (fs, r') ← parseFeatPairs k r; pure (Alias.RIn.matrix fs, r')
+    | "B" :: r => some (Alias.RIn.bound, r)
+    | _ => none)
+  match rest with
+  | "R" :: plus :: len :: r => do
+    let len ← len.toNat?
+    let (t, r') ← parseNats len r
+    pure (⟨inp, .repl t (plus == "1")⟩, r')
+  | "E" :: r => some (⟨inp, .empty⟩, r)
+  | _ => none
+
+def parseRoms : Nat → List String → Option (List Alias.Rom × List String)
+  | 0, ts => some ([], ts)
+  | n + 1, ts => do
+    let (r, rest) ← parseRom ts
+    let (rs, rest') ← parseRoms n rest
+    pure (r :: rs, rest')
+
+def parseDeroms : Nat → List String → Option (List Alias.Derom × List String)
+  | 0, ts => some ([], ts)
+  | n + 1, k :: ts => do
+    let k ← k.toNat?
+    let (key, rest) ← parseNats k ts
+    let (seg, rest') ← parseSeg rest
+    let (ds, rest'') ← parseDeroms n rest'
+    pure ((key, seg) :: ds, rest'')
+  | _, _ => none
+
 def handleOp (st : DState) (line : String) : DState × String :=
   let ts := (line.splitOn " ").filter (· != "")
   match ts with
@@ -310,6 +360,14 @@ def handleOp (st : DState) (line : String) : DState × String :=
   | "renderseg" :: rest =>
     match parseSeg rest with
     | some (s, _) => (st, showRes (fun o => match o with | some t => showText t | none => "none") (Render.segToText st.ord s))
+    | none => (st, "bad-op")
+  | "rendera" :: n :: rest =>
+    match n.toNat? >>= fun n => parseRoms n rest >>= fun (roms, r) => (parseWordFlat r).map fun (w, _) => (roms, w) with
+    | some (roms, w) => (st, showRes showText (Alias.render roms st.ord w))
+    | none => (st, "bad-op")
+  | "parsed" :: n :: rest =>
+    match n.toNat? >>= fun n => parseDeroms n rest >>= fun (ds, r) => (r.mapM String.toNat?).map fun t => (ds, t) with
+    | some (ds, t) => (st, showRes showWord (Alias.parseInput ds t))
     | none => (st, "bad-op")
   | "apply" :: rest => (st, opApply false rest)
   | "applyv" :: rest => (st, opApply true rest)
